@@ -65,12 +65,17 @@ def run(ctx):
             continue
         key = ver if ver != "3" else s[5:8]
         schema = jschema.load(SCHEMA[key])
-        for sort in (False, True):
+        for sort in (False, True, False, True):       # every option set twice on the same object
             for minimal in (False, True):
                 ctx.nontrivial((ver, s, sort, minimal))
                 rp = {"ver": ver, "s": s, "sort": sort, "minimal": minimal}
                 try:
-                    d = json.loads(json.dumps(o.as_json(sort=sort, minimal=minimal)))
+                    raw = o.as_json(sort=sort, minimal=minimal)
+                    d = json.loads(json.dumps(raw))
+                    # the caller owns the returned dict and edits it; the next call must hand out a valid document again
+                    for kk in list(raw.keys()):
+                        raw[kk] = None
+                    raw.pop("version", None)
                 except Exception as ex:  # noqa
                     ctx.violation("v%s:as_json-raised" % ver, "as_json()/json round trip raised", s, None, repr(ex), replay=rp)
                     continue
